@@ -386,4 +386,48 @@ Section RefineMerge.
       rewrite <- !(map_nth fst) in E. cbn in E.
       apply (proj1 (NoDup_nth (map fst pcs) 0%nat) Hnd); auto; now rewrite map_length.
   Qed.
+
+  (** ** the stable merge is a run of the abstract scheduler *)
+  Lemma sched_cons_nil st out E : sched cmp st out E -> sched cmp ([] :: st) out ([] :: E).
+  Proof.
+    induction 1 as [st|st i r t out st' Hi Hh Hrun IH]; [constructor|].
+    apply sched_cons with (i := S i) (t := t); [exact Hi| |exact IH].
+    intros [|j] r' t' Hj; cbn in Hj; [discriminate|]. exact (Hh j r' t' Hj).
+  Qed.
+
+  Lemma merge2s_sched l : sorted l -> forall st out E,
+    sched cmp st out E -> all_empty K E -> Forall sorted st ->
+    sched cmp (l :: st) (merge2s l out) ([] :: E).
+  Proof.
+    induction l as [|x l IHl]; intros Hl st out E Hrun He Hs.
+    - rewrite merge2s_nil_l. now apply sched_cons_nil.
+    - assert (Hl' : sorted l) by (now inversion Hl).
+      induction Hrun as [st|st i y t out st' Hi Hh Hrun IHrun].
+      + rewrite merge2s_nil_r.
+        pose proof (sched_prefix K cmp cmp_opp (x :: l) ((x :: l) :: st) 0%nat []) as Hp.
+        cbn [upd] in Hp. apply Hp.
+        * cbn. now rewrite app_nil_r.
+        * now rewrite app_nil_r.
+        * intros r j r' t' _ Hj Hn. destruct j as [|j]; [congruence|]. cbn in Hn.
+          unfold all_empty in He. rewrite Forall_forall in He.
+          specialize (He _ (nth_error_In _ _ Hn)). discriminate.
+      + rewrite merge2s_cons. destruct (Z.ltb_spec (rcmp y x) 0) as [Hlt|Hge].
+        * apply sched_cons with (i := S i) (t := t); [exact Hi| |].
+          -- intros [|j] r' t' Hj; cbn in Hj; [inversion Hj; subst; lia|exact (Hh j r' t' Hj)].
+          -- cbn [upd]. apply IHrun; [exact He|]. eapply (Forall_sorted_upd K cmp); eauto.
+        * assert (Hxy : rle x y) by (unfold rle, Model.rcmp in *; apply (cmp_ge_le K cmp cmp_opp); lia).
+          apply sched_cons with (i := 0%nat) (t := l); [reflexivity| |].
+          -- intros [|j] r' t' Hj; cbn in Hj; [inversion Hj; subst; apply (rle_refl K cmp cmp_opp)|].
+             apply (rle_trans K cmp cmp_trans) with y; [exact Hxy|exact (Hh j r' t' Hj)].
+          -- cbn [upd]. apply IHl; [exact Hl'| |exact He|exact Hs]. econstructor; eauto.
+  Qed.
+
+  Theorem smerge_sched st : Forall sorted st ->
+    exists E, sched cmp st (smerge st) E /\ all_empty K E.
+  Proof.
+    induction 1 as [|l st Hl Hst IH]; [exists []; split; constructor|].
+    destruct IH as [E [Hrun He]]. exists ([] :: E). split; [|constructor; auto].
+    rewrite smerge_cons. now apply merge2s_sched.
+  Qed.
+
 End RefineMerge.
